@@ -122,6 +122,19 @@ def arrays_of(obj, depth=0):
             out += arrays_of(x, depth + 1)
         return out
     try:
+        import pyarrow as pa
+        if isinstance(obj, pa.Table):
+            return [a for col in obj.columns for a in arrays_of(col, depth + 1)]
+        if isinstance(obj, pa.ChunkedArray):
+            return [a for chunk in obj.chunks for a in arrays_of(chunk, depth + 1)]
+        if isinstance(obj, pa.Array):
+            try:
+                return [obj.to_numpy(zero_copy_only=True)]   # a view of the Arrow buffer (primitive types without nulls)
+            except Exception:
+                return []
+    except ImportError:
+        pass
+    try:
         import pandas as pd
         if isinstance(obj, pd.DataFrame):
             return [obj[c].to_numpy() for c in obj.columns]
@@ -189,6 +202,11 @@ def df_menu():
     add("rbind", "self", lambda d, a: d.rbind(d))
     add("rbind", "other", lambda d, a: d.rbind(a[0]), 1)
     add("rbind", "none", lambda d, a: d.rbind())
+    # arguments that lack some of the receiver's (and of each other's) columns, and bring one of their own
+    add("rbind", "ragged others", lambda d, a: d.rbind(a[0], a[1]), "ragged2")
+    add("rbind", "ragged other, narrow receiver", lambda d, a: d.select("s", "i").rbind(a[1]), "ragged2")
+    add("cbind", "two others", lambda d, a: d.cbind(a[0], a[1]), "ragged2")
+    add("update", "two others", lambda d, a: d.update(a[0], a[1]), "ragged2")
     add("cbind", "other", lambda d, a: d.cbind(a[0].rename(**{n + "2": n for n in names})), 1)
     add("cbind", "none", lambda d, a: d.cbind())
     add("update", "other", lambda d, a: d.update(a[0].select("i", "s").rename(s2="s")), 1)
@@ -201,6 +219,8 @@ def df_menu():
     add("compare", "", lambda d, a: d.unique("i").compare(a[0].unique("i"), "i"), 1)
     add("map", "", lambda d, a: d.map(lambda x, i: x.i[i]))
     add("to_arrow", "", lambda d, a: d.unselect("o").to_arrow())
+    add("to_arrow", "called on the receiver itself (no object column)", lambda d, a: d.to_arrow(), "noobj")
+    add("to_pandas", "called on the receiver itself (no object column)", lambda d, a: d.to_pandas(), "noobj")
     add("to_pandas", "", lambda d, a: d.to_pandas())
     add("to_json", "", lambda d, a: d.select("i", "f", "b", "s").to_json())
     add("to_list_of_dicts", "", lambda d, a: d.to_list_of_dicts())
@@ -419,11 +439,18 @@ def check_case(case, rec):
         r = case["rows"]
 
         def build():
-            recv = V.frame(operand_cols(r))
+            recv = V.frame(operand_cols(r) if nargs != "noobj" else [c for c in operand_cols(r) if c[1] != "obj"])
             if case.get("grouped"):
                 recv.group_by("i")  # the mark stays on the object; a method returning a new object must not clear or change it
+            if nargs == "noobj":
+                return recv, []
             if nargs == "idx":
                 return recv, [np.array([-1, 0], dtype="int64")]
+            if nargs == "ragged2":
+                cols = operand_cols(r, shift=1)
+                a0 = V.frame([c for c in cols if c[0] not in ("f", "s")])
+                a1 = V.frame([c for c in cols if c[0] != "i"] + [["x9", "i8", list(range(r))]])
+                return recv, [a0, a1]
             return recv, [V.frame(operand_cols(max(r, 2), shift=1)) for _ in range(nargs)]
         run_call(rec, f"DataFrame.{case['method']}" + (" [grouped receiver]" if case.get("grouped") else ""), label, build, fn, case)
     elif case.get("part") == "vec":
